@@ -99,7 +99,7 @@ theorem system_tmp_refuted (fs : FS) (n f : Name) (o : Opts) (g : Time) (r : Rep
     sibling directories, every other content of the directory that is not itself a loadable report, `load_report(dir)`
     after `save_report(dir/f)` yields the saved report. -/
 theorem dir_save_load_json (fs : FS) (n f : Name) (o : Opts) (g : Time) (r : Report) (d : Dir)
-    (hd : findDir n fs = some d) (hother : ∀ x ∈ d.entries, x.1 ≠ f → loadEntry x.2 = none)
+    (hd : findDir n fs = some d) (hother : ∀ x ∈ d.entries, x.1 ≠ f → loadEntry x.2 = .skip)
     (hrep : representable r = true) :
     (save fs n f (.json o) g r).2 = .saved ∧ loadDir (save fs n f (.json o) g r).1 n = .loaded (loaded g r) := by
   refine ⟨save_json_succeeds .., ?_⟩
@@ -107,7 +107,7 @@ theorem dir_save_load_json (fs : FS) (n f : Name) (o : Opts) (g : Time) (r : Rep
       updateDir n (fun d => { d with entries := setEntry f (.file (.json o (toJson g r))) d.entries }) fs := by
     unfold save saveInto
     simp [contentOf, hd, replaceOk, tmpDev]
-  have hl : loadEntry (.file (.json o (toJson g r))) = some (loaded g r) := by
+  have hl : loadEntry (.file (.json o (toJson g r))) = .report (loaded g r) := by
     have := oneShot_json o g r hrep
     simp only [oneShot] at this
     simp [loadEntry, this]
@@ -116,7 +116,7 @@ theorem dir_save_load_json (fs : FS) (n f : Name) (o : Opts) (g : Time) (r : Rep
 
 /-- The same for the XML backend under the guard of `xml_roundtrip_partial`. -/
 theorem dir_save_load_xml_partial (fs : FS) (n f : Name) (g : Time) (r : Report) (d : Dir)
-    (hd : findDir n fs = some d) (hother : ∀ x ∈ d.entries, x.1 ≠ f → loadEntry x.2 = none)
+    (hd : findDir n fs = some d) (hother : ∀ x ∈ d.entries, x.1 ≠ f → loadEntry x.2 = .skip)
     (hs : xmlSafe r = true) (hrep : representable r = true) :
     (save fs n f .xml g r).2 = .saved ∧ loadDir (save fs n f .xml g r).1 n = .loaded (loaded g r) := by
   have hone := oneShot_xml_partial g r hs hrep
@@ -129,9 +129,28 @@ theorem dir_save_load_xml_partial (fs : FS) (n f : Name) (g : Time) (r : Report)
         (updateDir n (fun d => { d with entries := setEntry f (.file (.xml c)) d.entries }) fs, .saved) := by
       unfold save saveInto
       simp [contentOf, hx, hd, replaceOk, tmpDev]
-    have hl : loadEntry (.file (.xml c)) = some (loaded g r) := by simp [loadEntry, hone]
+    have hl : loadEntry (.file (.xml c)) = .report (loaded g r) := by simp [loadEntry, hone]
     rw [hsv]
     exact ⟨rfl, loadDir_after_set fs n f _ _ d hd hother hl⟩
+
+/-- `C09/roundtrip/directory-load-crashes-on-foreign-file` (open finding): the guard `hother` of the two theorems above
+    cannot be dropped — a directory entry on which a backend raises something else than `ReportLoadingError` (a file
+    that is not UTF-8 text; a pid file holding `4242`, which is a JSON document) and that `os.listdir` yields before the
+    report makes `load_report(<directory>)` raise, although the report file beside it is intact.
+    Full-strength statement (false): `∀ d, findDir n fs = some d → loadDir (save fs n f (.json o) g r).1 n = .loaded (loaded g r)`. -/
+theorem hostile_entry_crashes_directory_load (fs : FS) (n nm : Name) (d : Dir) (rest : List (Name × DirStore.Entry))
+    (hd : findDir n fs = some d) (he : d.entries = (nm, .hostile) :: rest) : loadDir fs n = .crashed := by
+  simp [loadDir, hd, he, firstLoad, loadEntry]
+
+/-- … and the LIST form (`list(load_reports_from_dir(dir))`) raises wherever the entry is in the listing -/
+theorem hostile_entry_crashes_directory_listing (a b : List (Name × DirStore.Entry)) (nm : Name) :
+    loadAll (a ++ (nm, .hostile) :: b) = none := by
+  induction a with
+  | nil => simp [loadAll, loadEntry]
+  | cons x rest ih =>
+    obtain ⟨xn, e⟩ := x
+    simp only [List.cons_append, loadAll, ih]
+    cases loadEntry e <;> rfl
 
 /-- Refutation of a lookup that reads the directory's name as a PATTERN (`glob.glob(join(dirname, "*"))`; here the
     weakest pattern language, `?` = any one character): asked for the directory `what?` it opens the sibling `whats`. -/
